@@ -66,3 +66,134 @@ def shadow_before_raise(m, rid):
                "the intrinsic does not allow is a syntax error instead of a Part_Ref" % A.text(bad[0].exc if isinstance(bad[0], ast.Raise) else bad[0])[:50],
                m.loc(f, bad[0]))
     return r
+
+
+# =================================================================================================
+# raising look-ups on the parsed text are guarded by a test that proves the needle is present
+# =================================================================================================
+def mandatory_literal_runs(pattern, flags):
+    """Upper-cased runs of literal characters that every string matched by `pattern` must contain, in the top-level sequence."""
+    import re
+    from re import _parser as sp
+    from re import _constants as sc
+    tree = sp.parse(pattern, flags)
+    runs, cur = [], []
+    for op, av in tree:
+        if op is sc.LITERAL:
+            cur.append(chr(av))
+        else:
+            if cur:
+                runs.append("".join(cur))
+            cur = []
+            if op is sc.SUBPATTERN and av[3] is not None:
+                inner = av[3]
+                if all(o is sc.LITERAL for o, _ in inner):
+                    runs.append("".join(chr(a) for _, a in inner))
+    if cur:
+        runs.append("".join(cur))
+    ci = bool(flags & re.I)
+    return [r_.upper() if ci else r_ for r_ in runs], ci
+
+
+def index_guard_rule(m, rid):
+    r = RuleResult(rid, "str.index()/rindex() on the text being matched is only reached after a test that proves the needle is present "
+                        "(otherwise garbage input escapes as ValueError instead of a syntax error)")
+    r.floor = 2
+    for (p, q), f in sorted(m.funcs.items()):
+        if "/tests/" in p or "/two/" not in p:
+            continue
+        sites = [c for c in A.calls(f.node) if isinstance(c.func, ast.Attribute) and c.func.attr in ("index", "rindex")
+                 and c.args and isinstance(A.const(c.args[0]), str)]
+        if not sites:
+            continue
+        for c in sites:
+            needle = A.const(c.args[0])
+            recv = c.func.value
+            upper = False
+            if isinstance(recv, ast.Call) and isinstance(recv.func, ast.Attribute) and recv.func.attr in ("upper", "lower") and not recv.args:
+                upper = recv.func.attr == "upper"
+                var = A.text(recv.func.value)
+            else:
+                var = A.text(recv)
+            r.instances += 1
+
+            def is_guard(test, positive):
+                """does `test` being true (positive) / false (not positive) prove that needle is in var?"""
+                if isinstance(test, ast.UnaryOp) and isinstance(test.op, ast.Not):
+                    return is_guard(test.operand, not positive)
+                if isinstance(test, ast.Compare) and len(test.ops) == 1 and isinstance(test.ops[0], (ast.In, ast.NotIn)):
+                    if A.const(test.left) == needle and A.text(test.comparators[0]) in (A.text(recv), var):
+                        return positive == isinstance(test.ops[0], ast.In)
+                    return False
+                if isinstance(test, ast.Call) and isinstance(test.func, ast.Attribute) and test.func.attr in ("match", "search", "fullmatch") \
+                        and test.args and A.text(test.args[0]) == var and positive:
+                    pats = regex_of(m, f, test.func.value)
+                    for pat, flags in pats:
+                        runs, ci = mandatory_literal_runs(pat, flags)
+                        nd = needle.upper() if ci else needle
+                        if (ci and not upper and needle.upper() != needle.lower()):
+                            continue        # case-insensitive guard, case-sensitive look-up
+                        if any(nd in run for run in runs):
+                            return True
+                    return False
+                return False
+
+            cl = GuardClient(c, is_guard)
+            fl = GuardFlow(m, f, cl)
+            fl.run(F.State({"$has": F.FALSE}))
+            ok = not cl.bad and cl.reached
+            r.ob(ok, "%s: `%s` dominated by a guard proving %r is present" % (q, A.text(c)[:40], needle))
+            if not cl.reached:
+                r.error("%s: `%s` not reached by the flow engine" % (q, A.text(c)[:40]))
+            elif cl.bad:
+                r.fail("%s|unguarded-index|%s" % (q, needle), "%s: `%s` can be reached without any test proving that %r occurs in `%s`: for other "
+                       "text str.index raises ValueError, which is not a syntax error and escapes the parser" % (q, A.text(c)[:40], needle, var),
+                       m.loc(f, c))
+    return r
+
+
+def regex_of(m, f, node):
+    """[(pattern, flags)] for an expression naming a compiled regex: Class._attr, self._attr/cls._attr, or a module global."""
+    out = []
+    if isinstance(node, ast.Attribute) and isinstance(node.value, ast.Name):
+        owner = node.value.id
+        keys = []
+        if owner in ("self", "cls") and f.cls_node is not None:
+            keys = [m.key(f.cls_node.name, f.module)]
+        else:
+            ck = m.class_of_name(f, owner)
+            if ck:
+                keys = [ck]
+        for k in keys:
+            for kk in m.classes[k]["mro"] if k in m.classes else []:
+                ent = m.classes.get(kk, {}).get("own", {}).get(node.attr)
+                if ent and ent.get("patterns"):
+                    out += [(p_["pattern"], p_.get("flags", 0)) for p_ in ent["patterns"] if p_.get("kind") == "re"]
+                    break
+    return out
+
+
+class GuardClient(F.Client):
+    track = {"$has"}
+
+    def __init__(self, site, is_guard):
+        self.site = site
+        self.is_guard = is_guard
+        self.bad = []
+        self.reached = False
+
+    def call_effect(self, call, st):
+        if call is self.site:
+            self.reached = True
+            if st.get("$has") != F.TRUE:
+                self.bad.append(call)
+        return (st,)
+
+
+class GuardFlow(F.Flow):
+    def split_leaf(self, test, st):
+        if self.c.is_guard(test, True):
+            return {st.set("$has", F.TRUE)}, {st}
+        if self.c.is_guard(test, False):
+            return {st}, {st.set("$has", F.TRUE)}
+        return F.Flow.split_leaf(self, test, st)
